@@ -1,0 +1,63 @@
+//! Virtual clock for the verification harness (feature `verif`).
+//!
+//! With the feature on, the keep-alive tracker of `TransportService` reads this clock and sleeps on it instead of
+//! `std::time::Instant` / `tokio::time::sleep`, so that a harness can move time explicitly and a schedule found
+//! symbolically can be replayed exactly. With the feature off nothing here is compiled.
+
+use std::{
+    future::Future,
+    pin::Pin,
+    sync::atomic::{AtomicU64, Ordering},
+    task::{Context, Poll},
+    time::Duration,
+};
+
+static NOW_MS: AtomicU64 = AtomicU64::new(0);
+
+/// Milliseconds since the start of the run.
+pub fn now_ms() -> u64 {
+    NOW_MS.load(Ordering::SeqCst)
+}
+
+/// Let `ms` milliseconds pass.
+pub fn advance(ms: u64) {
+    NOW_MS.fetch_add(ms, Ordering::SeqCst);
+}
+
+/// A point in virtual time.
+#[derive(Debug, Clone, Copy, PartialEq, Eq, PartialOrd, Ord)]
+pub struct Instant(u64);
+
+impl Instant {
+    pub fn now() -> Self {
+        Instant(now_ms())
+    }
+
+    pub fn elapsed(&self) -> Duration {
+        Duration::from_millis(now_ms().saturating_sub(self.0))
+    }
+}
+
+/// Completes once the virtual clock has reached the deadline.
+#[derive(Debug)]
+pub struct Sleep {
+    deadline_ms: u64,
+}
+
+pub fn sleep(duration: Duration) -> Sleep {
+    Sleep { deadline_ms: now_ms().saturating_add(duration.as_millis() as u64) }
+}
+
+impl Future for Sleep {
+    type Output = ();
+
+    fn poll(self: Pin<&mut Self>, cx: &mut Context<'_>) -> Poll<()> {
+        if now_ms() >= self.deadline_ms {
+            Poll::Ready(())
+        } else {
+            // nobody wakes a virtual timer: ask to be polled again
+            cx.waker().wake_by_ref();
+            Poll::Pending
+        }
+    }
+}
